@@ -145,6 +145,8 @@ def build_field(f):
         kw["required"] = False
     if f.get("on_error"):
         kw["on_error"] = f["on_error"]
+    if f.get("deps"):
+        kw["dependencies"] = list(f["deps"])
     kw.update(f.get("fcons") or {})       # constraints declared on the field: validators of the wrapping Rule
     return Field(**kw)
 
@@ -163,6 +165,9 @@ def make_options(o, mode, extra=None):
             kw[k] = o[k]
     if o.get("dfs") is not None:
         kw["data_first_search"] = bool(o["dfs"])
+    for k in ("max_params", "min_params"):
+        if o.get(k):
+            kw[k] = o[k]
     if extra:
         kw.update(extra)
     return Options(**kw)
@@ -540,6 +545,10 @@ def impl(case):
     posnames = [f["name"] for f in decl if f.get("pos")]
     given = posnames[:len(pargs)]
     alone = []
+    o_full, decl_full = o, decl
+    # "on its own" is the item-level notion: without the key-count limits and the dependencies of the whole mapping
+    o = {k: v for k, v in o.items() if k not in ("max_params", "min_params")}
+    decl = [{k: v for k, v in f.items() if k != "deps"} for f in decl]
     for j, v in enumerate(pargs):
         if j < len(posnames):
             # the parameter it is bound to, given alone (by keyword)
@@ -554,6 +563,7 @@ def impl(case):
         r = run_decl(api, d1, o, optmode, MODES[0], [(k, v) for k, v in pdata if k == it], (), None, kwty)
         alone.append([it, "ok" not in r])
     out = {"runs": runs, "alone": alone}
+    o, decl = o_full, decl_full
     # the tree the model runs on + the conversions it may ask for
     try:
         st, v, _ = get_decl(api, decl, o, optmode, MODES[0], var, kwty)
@@ -580,13 +590,17 @@ def impl(case):
         for fname in order:
             f = byname[fname]
             pf = fields[f["name"]]
-            if pf.name != f["name"] or list(pf.all_aliases) != [f["name"]] or pf.dependencies or pf.discriminator_map:
-                raise Unmodelled("field aliases/dependencies")
+            if pf.name != f["name"] or list(pf.all_aliases) != [f["name"]] or pf.discriminator_map:
+                raise Unmodelled("field aliases")
+            deps = sorted(pf.dependencies or [])
+            if any(d not in byname for d in deps):
+                raise Unmodelled("dependency on something that is not a declared field")
             if getattr(pf, "positional_only", False):
                 raise Unmodelled("positional-only parameter")
             ty = resolve(pf.type, cons_table) if pf.type is not None else None
             rdecl.append({"name": f["name"], "ty": strip(ty), "required": bool(pf.is_required(make_options(o, MODES[0]))),
-                          **({"default": f["default"]} if "default" in f else {}), "on_error": f.get("on_error")})
+                          **({"default": f["default"]} if "default" in f else {}), "on_error": f.get("on_error"),
+                          "deps": deps})
             if ty is not None:
                 S = {vkey(v): v for k, v in data if k == f["name"]}
                 if f["name"] in given:
@@ -862,6 +876,15 @@ def gen_case(rng, api=None):
     for k in ("invalid_items", "invalid_keys", "invalid_values"):
         if rng.random() < 0.15:
             o[k] = rng.choice(POLICIES)
+    if rng.random() < 0.1:
+        o["max_params"] = rng.choice([1, 2, 3])
+    if rng.random() < 0.08:
+        o["min_params"] = rng.choice([1, 2, 3, 4])
+    if nf >= 2 and rng.random() < 0.16:
+        # dependencies between the declared fields
+        for f in rng.sample(decl, k=rng.choice([1, 1, 2])):
+            others = [g["name"] for g in decl if g["name"] != f["name"]]
+            f["deps"] = rng.sample(others, k=min(len(others), rng.choice([1, 1, 2])))
     data = []
     nbad = rng.choice([0, 0, 1, 1, 2, 2, 3, 4])
     bad = set(rng.sample(range(nf), k=min(nf, nbad)))
@@ -1005,7 +1028,34 @@ def norm_opts(o, ropts):
     """the model's options: the case's, with the effective `addition` / declared addition type measured by the adapter"""
     return {"ndl": False, "nec": False, "addition": ropts["addition"], "addTy": ropts["addTy"],
             "invalid_items": o.get("invalid_items"), "invalid_keys": o.get("invalid_keys"),
-            "invalid_values": o.get("invalid_values"), "dfs": bool(o.get("dfs"))}
+            "invalid_values": o.get("invalid_values"), "dfs": bool(o.get("dfs")),
+            "max_params": o.get("max_params") or None, "min_params": o.get("min_params") or None}
+
+
+GLOBAL_KINDS = {"ParamsExceedError", "ParamsLackError", "DependenciesAbsenceError"}
+
+
+def global_truth(case, io):
+    """what the mapping as a whole must / may report, from the case alone: the key count is exact; a dependency
+    can only be lacking when a given field demands a field that is not given or fails"""
+    o, decl = case["opts"], case["decl"]
+    n = len(case["data"])
+    posnames = [f["name"] for f in decl if f.get("pos")]
+    bykw = {k for k, _ in case["data"]}
+    given = set(posnames[:len(case.get("args") or [])]) | bykw
+    failing = set(failing_items(io))
+    exceed = bool(o.get("max_params")) and n > o["max_params"]
+    lack = bool(o.get("min_params")) and n < o["min_params"]
+    excl = o.get("invalid_values") == "exclude"
+    # only a field parsed by parse_data (given by keyword) demands its dependencies; a positional one satisfies others'
+    byname = {f["name"]: f for f in decl}
+    # a dependency given but dropped by the `exclude` policy counts as not given (ParserField.EXCLUDED)
+    deps_possible = any(f["name"] in bykw and any(d not in given or d in failing or excl or
+                                                  byname.get(d, {}).get("on_error") == "exclude" for d in f["deps"])
+                        for f in decl if f.get("deps"))
+    deps_certain = any(f["name"] in bykw and f["name"] not in failing and not excl and f.get("on_error") != "exclude"
+                       and any(d not in given for d in f["deps"]) for f in decl if f.get("deps"))
+    return exceed, lack, deps_possible, deps_certain
 
 
 def failing_items(io):
@@ -1173,6 +1223,7 @@ class C10(Check):
             return f"adapter returned no runs: {io}"
         ff = io["runs"][0]
         failing = failing_items(io)
+        exceed, too_few, deps_possible, deps_certain = global_truth(case, io)
         for mode, r in zip(MODES[1:], io["runs"][1:]):
             tag = f"collect_errors=True,max_errors={mode[1]}"
             if ("ok" in ff) != ("ok" in r):
@@ -1186,9 +1237,18 @@ class C10(Check):
                 continue      # not a ParseError at all: C04's subject; the verdict (rejected) agrees
             if r.get("err") != "collected":
                 return f"{tag}: rejection is not one CollectedParseError but {r}"
-            named = [it for _, it in r["errors"]]
-            if any(it is None for it in named):
+            # errors of the whole mapping name no item; every other error must name one
+            glob = [k for k, it in r["errors"] if it is None]
+            bad = [k for k in glob if k not in GLOBAL_KINDS]
+            if bad:
                 return f"{tag}: a collected error names no item: {r['errors']}"
+            if ("ParamsExceedError" in glob and not exceed) or ("ParamsLackError" in glob and not too_few) or \
+                    ("DependenciesAbsenceError" in glob and not deps_possible) or len(glob) != len(set(glob)):
+                return f"{tag}: reports {glob} for the mapping as a whole, which the input does not warrant"
+            if mode[1] is None and ((exceed and "ParamsExceedError" not in glob) or (too_few and "ParamsLackError" not in glob)
+                                    or (deps_certain and "DependenciesAbsenceError" not in glob)):
+                return f"{tag}: the mapping as a whole fails (exceed={exceed}, lack={too_few}, dependency={deps_certain}) but reports only {glob}"
+            named = [it for _, it in r["errors"] if it is not None]
             extra = sorted(set(named) - set(failing))
             if extra:
                 return f"{tag}: reports item(s) {extra} that do not fail on their own (failing: {failing})"
@@ -1200,8 +1260,10 @@ class C10(Check):
                 return f"{tag}: {len(r['errors'])} errors reported, more than max_errors"
         if "ok" in ff and failing:
             return f"accepted although item(s) {failing} fail on their own"
-        if "ok" not in ff and not failing:
-            return "rejected although no top-level item fails on its own"
+        if "ok" in ff and (exceed or too_few or deps_certain):
+            return f"accepted although the mapping as a whole fails (exceed={exceed}, lack={too_few}, dependency={deps_certain})"
+        if "ok" not in ff and not failing and not (exceed or too_few or deps_possible):
+            return "rejected although no top-level item fails on its own and the mapping as a whole has nothing to report"
         return None
 
     def classify(self, case, io, why):
